@@ -10,8 +10,10 @@ use crate::common::constants::{CoroutineState, SyscallName, SyscallState};
 use crate::coroutine::Coroutine;
 use corosensei::StepCtx;
 
-type Co = Coroutine<'static, (), (), Option<usize>>;
-type St = CoroutineState<(), Option<usize>>;
+// Yield = u8 rather than the scheduler's `()`: see c07_state.rs (keeps the pool's CoroutineCreator out of the listener dispatch
+// set) - and the yielded payload becomes observable (C08).
+type Co = Coroutine<'static, (), u8, Option<usize>>;
+type St = CoroutineState<u8, Option<usize>>;
 type Ret = Result<Option<usize>, &'static str>;
 
 const NCO: usize = 3;
@@ -24,8 +26,9 @@ struct Step {
     kind: u8,
     ts: u64,
     val: Option<usize>,
+    y: u8, // the value yielded by this step
 }
-static mut PLAN: [[Step; NSTEP]; NCO] = [[Step { kind: 5, ts: 0, val: None }; NSTEP]; NCO];
+static mut PLAN: [[Step; NSTEP]; NCO] = [[Step { kind: 5, ts: 0, val: None, y: 0 }; NSTEP]; NCO];
 
 // (statics have distinctive non-zero initial values and are explicitly initialised: Kani 0.68 can alias a
 // constant allocation with a static whose initial bytes are identical, see c16_io.rs)
@@ -36,6 +39,10 @@ fn vnow() -> u64 {
 fn fmt_stub(_args: std::fmt::Arguments<'_>) -> String {
     String::new()
 }
+/// E6: common::page_size() asks sysconf (FFI, nondeterministic under Kani and then "negative" fails its expect)
+fn page_size_stub() -> usize {
+    4096
+}
 
 fn stack_lens() -> (usize, usize) {
     let t = TIMESTAMP.with(|s| unsafe { (*s.as_ptr()).len() });
@@ -45,29 +52,29 @@ fn stack_lens() -> (usize, usize) {
 
 /// The script interpreter: performs step `step` of coroutine `script` through the real API.
 fn interpreter(script: usize, step: usize, ctx: *mut ()) {
-    let ctx = unsafe { &mut *ctx.cast::<StepCtx<(), (), Ret>>() };
+    let ctx = unsafe { &mut *ctx.cast::<StepCtx<(), u8, Ret>>() };
     let yielder = unsafe { &*ctx.yielder };
     let suspender = Suspender::new(yielder);
     // what the real body wrapper does when the body (re)gains control
-    Suspender::<(), ()>::init_current(&suspender);
+    Suspender::<(), u8>::init_current(&suspender);
     let s = if script < NCO && step < NSTEP {
         unsafe { PLAN[script][step] }
     } else {
-        Step { kind: 5, ts: 0, val: None }
+        Step { kind: 5, ts: 0, val: None, y: 0 }
     };
     match s.kind {
-        0 => suspender.suspend(),
-        1 => suspender.until(s.ts),
+        0 => suspender.suspend_with(s.y),
+        1 => suspender.until_with(s.y, s.ts),
         2 => suspender.cancel(),
         3 | 4 => {
             let co = Co::current().expect("current coroutine");
-            co.syscall((), SyscallName::nanosleep, SyscallState::Executing)
+            co.syscall(s.y, SyscallName::nanosleep, SyscallState::Executing)
                 .expect("enter syscall state");
             if s.kind == 3 {
                 // EventLoop::wait_just: mark Suspend(timestamp) then yield with until(timestamp)
-                co.syscall((), SyscallName::nanosleep, SyscallState::Suspend(s.ts))
+                co.syscall(s.y, SyscallName::nanosleep, SyscallState::Suspend(s.ts))
                     .expect("syscall suspend");
-                suspender.until(s.ts);
+                suspender.until_with(s.y, s.ts);
             } else {
                 suspender.cancel();
             }
@@ -78,7 +85,7 @@ fn interpreter(script: usize, step: usize, ctx: *mut ()) {
     }
     // the model's switch returned at once, so suspend_with's tail already re-registered the
     // suspender; undo that: while a coroutine is suspended it has no current suspender
-    Suspender::<(), ()>::clean_current();
+    Suspender::<(), u8>::clean_current();
 }
 
 fn any_plan(kinds_max: u8) {
@@ -89,7 +96,7 @@ fn any_plan(kinds_max: u8) {
             while s < NSTEP {
                 let kind: u8 = kani::any();
                 kani::assume(kind <= kinds_max);
-                PLAN[c][s] = Step { kind, ts: kani::any(), val: if kani::any() { Some(kani::any()) } else { None } };
+                PLAN[c][s] = Step { kind, ts: kani::any(), val: if kani::any() { Some(kani::any()) } else { None }, y: kani::any() };
                 s += 1;
             }
             c += 1;
@@ -98,36 +105,38 @@ fn any_plan(kinds_max: u8) {
 }
 
 fn new_co(name: &str) -> Co {
-    Coroutine::new(Some(String::from(name)), |_: &Suspender<(), ()>, ()| None, None, None).expect("create coroutine")
+    Coroutine::new(Some(String::from(name)), |_: &Suspender<(), u8>, ()| None, None, None).expect("create coroutine")
 }
 
 /// What the resume of a coroutine performing step `s` must report.
 fn check_result(s: &Step, r: &St) {
     match s.kind {
-        0 => kani::assert(*r == CoroutineState::Suspend((), 0), "a plain suspend is reported with wake-up time 0 and not cancelled"),
-        1 => kani::assert(*r == CoroutineState::Suspend((), s.ts), "a timed delay is reported with exactly the requested wake-up time"),
+        0 => kani::assert(*r == CoroutineState::Suspend(s.y, 0), "a plain suspend is reported with the yielded value, wake-up time 0 and not cancelled"),
+        1 => kani::assert(*r == CoroutineState::Suspend(s.y, s.ts), "a timed delay is reported with the yielded value and exactly the requested wake-up time"),
         2 => kani::assert(*r == CoroutineState::Cancelled, "a cancel request cancels the coroutine that made it"),
         3 => kani::assert(
-            *r == CoroutineState::Syscall((), SyscallName::nanosleep, SyscallState::Suspend(s.ts)),
+            *r == CoroutineState::Syscall(s.y, SyscallName::nanosleep, SyscallState::Suspend(s.ts)),
             "a yield made in a system-call state is reported as that system-call state",
         ),
-        4 => kani::assert(matches!(*r, CoroutineState::Syscall((), SyscallName::nanosleep, _) | CoroutineState::Cancelled),
+        4 => kani::assert(matches!(*r, CoroutineState::Syscall(_, SyscallName::nanosleep, _) | CoroutineState::Cancelled),
             "a cancel requested in a system-call state is reported for the coroutine that made it"),
         _ => kani::assert(*r == CoroutineState::Complete(s.val), "the return value is reported as completion"),
     }
 }
 
-/// Three scripted coroutines on one thread, each resumed once, in order: whatever the earlier ones
+/// Two scripted coroutines on one thread, each resumed once, in order: whatever the earlier one
 /// requested (also while in a system-call state), each resume reports exactly what THAT coroutine
-/// requested, and both request stacks are empty after every resume.
+/// requested, and both request stacks are empty after every resume. (Longer sequences follow by
+/// induction from the one-step harnesses below: the only state a yield can leave behind for the next
+/// coroutine on the thread are the two request stacks.)
 fn sequence(kinds_max: u8) {
     any_plan(kinds_max);
     corosensei::verif_reset_script_ids();
     corosensei::verif_set_step_hook(Some(interpreter));
     unsafe { VNOW = kani::any() };
-    let mut cos = [new_co("a"), new_co("b"), new_co("c")];
+    let mut cos = [new_co("a"), new_co("b")];
     let mut i = 0;
-    while i < NCO {
+    while i < 2 {
         let s = unsafe { PLAN[i][0] };
         let r = cos[i].resume().expect("resume");
         check_result(&s, &r);
@@ -149,11 +158,42 @@ macro_rules! c09_harness {
         #[kani::unwind(5)]
         #[kani::stub(crate::common::now, vnow)]
         #[kani::stub(alloc::fmt::format, fmt_stub)]
+        #[kani::stub(crate::common::page_size, page_size_stub)]
         fn $name() {
             $body
         }
     };
 }
+
+/// Inductive step: with no request pending on the thread (both stacks empty), ONE resume of a coroutine whose next
+/// step is of the given kind (symbolic timestamp / value / clock) reports exactly what that step requested and
+/// leaves no request pending. Every sequence of yields on a thread is a chain of such steps.
+fn one_step(kind: u8) {
+    // the step kind is a constant of the harness (one harness per kind); timestamp, yielded value and clock are symbolic
+    unsafe {
+        PLAN[0][0] = Step { kind, ts: kani::any(), val: None, y: kani::any() };
+        VNOW = kani::any();
+    }
+    corosensei::verif_reset_script_ids();
+    corosensei::verif_set_step_hook(Some(interpreter));
+    let mut co = new_co("a");
+    let (t0, c0) = stack_lens();
+    kani::assert(t0 == 0 && c0 == 0, "harness: starts with no pending request");
+    let s = unsafe { PLAN[0][0] };
+    let r = co.resume().expect("resume");
+    check_result(&s, &r);
+    let (t, c) = stack_lens();
+    kani::assert(t == 0, "no wake-up time request is left behind for the next coroutine");
+    kani::assert(c == 0, "no cancel request is left behind for the next coroutine");
+    kani::cover!(s.ts == u64::MAX, "maximal timestamp");
+    kani::cover!(s.ts == 0, "zero timestamp");
+    core::mem::forget(co);
+}
+c09_harness!(c09_step_plain_suspend, one_step(0));
+c09_harness!(c09_step_delay, one_step(1));
+c09_harness!(c09_step_cancel, one_step(2));
+c09_harness!(c09_step_delay_in_syscall_state, one_step(3));
+c09_harness!(c09_step_cancel_in_syscall_state, one_step(4));
 
 // only steps made in the Running state
 c09_harness!(c09_running_state_requests, sequence(2));
@@ -198,7 +238,7 @@ c09_harness!(c07_scripted_body_path, {
             kani::assert(corosensei::verif_resume_count() == before + 1, "each resume of a live coroutine steps it exactly once");
         }
     }
-    kani::cover!(matches!(r0, CoroutineState::Suspend((), _)), "suspended after the first step");
+    kani::cover!(matches!(r0, CoroutineState::Suspend(_, _)), "suspended after the first step");
     kani::cover!(matches!(r0, CoroutineState::Complete(_)), "completed in the first step");
     kani::cover!(r0 == CoroutineState::Cancelled, "cancelled in the first step");
     core::mem::forget(co);
@@ -254,7 +294,78 @@ c09_harness!(c25_dropped_with_the_coroutine, {
         kani::assert(C25_DROPPED == C25_CREATED, "values still stored are dropped with the coroutine, in whatever state it is dropped");
     }
     kani::cover!(!resumed, "dropped before it ever ran");
-    kani::cover!(matches!(state, CoroutineState::Suspend((), _)), "dropped while suspended mid-body");
+    kani::cover!(matches!(state, CoroutineState::Suspend(_, _)), "dropped while suspended mid-body");
     kani::cover!(matches!(state, CoroutineState::Complete(_)), "dropped after completion");
     kani::cover!(state == CoroutineState::Cancelled, "dropped after being cancelled");
+});
+
+// ---------------------------------------------------------------------------------------- C08 (value half)
+// Values cross the coroutine boundary faithfully: Coroutine<Param = u16, Yield = u8, Return = Option<usize>>.
+// The scripted body yields twice and then returns (or returns earlier - symbolic); every resume argument, yielded value
+// and the return value is symbolic. In the model the "pending suspend call returns" at the start of the next step, so the
+// value it returns is the `input` the step hook receives - which went through the real resume_with / raw_resume.
+type Co8 = Coroutine<'static, u16, u8, Option<usize>>;
+const N8: usize = 3;
+static mut SEEN_IN: [Option<u16>; N8] = [None; N8];
+static mut YIELDS: [u8; N8] = [0x81; N8];
+static mut RETURNS_AT: usize = 0x82; // the step in which the body returns
+static mut RET8: Option<usize> = None;
+
+fn interpreter8(_script: usize, step: usize, ctx: *mut ()) {
+    let ctx = unsafe { &mut *ctx.cast::<StepCtx<u16, u8, Ret>>() };
+    let yielder = unsafe { &*ctx.yielder };
+    let suspender = Suspender::new(yielder);
+    Suspender::<u16, u8>::init_current(&suspender);
+    unsafe {
+        if step < N8 {
+            SEEN_IN[step] = ctx.input;
+        }
+        if step >= RETURNS_AT || step >= N8 - 1 {
+            ctx.ret = Some(Ok(RET8));
+        } else {
+            _ = suspender.suspend_with(YIELDS[step]);
+        }
+    }
+    Suspender::<u16, u8>::clean_current();
+}
+
+c09_harness!(c08_values_cross_the_boundary, {
+    unsafe {
+        VNOW = u64::MAX;
+        SEEN_IN = [None; N8];
+        YIELDS = kani::any();
+        RETURNS_AT = kani::any();
+        kani::assume(RETURNS_AT < N8);
+        RET8 = if kani::any() { Some(kani::any()) } else { None };
+    }
+    corosensei::verif_reset_script_ids();
+    corosensei::verif_set_step_hook(Some(interpreter8));
+    let mut co: Co8 = Coroutine::new(Some(String::from("c08")), |_: &Suspender<u16, u8>, _: u16| None, None, None).expect("create coroutine");
+    let args: [u16; N8] = kani::any();
+    let mut k = 0;
+    let mut finished = false;
+    while k < N8 {
+        if !finished {
+            let r = co.resume_with(args[k]).expect("resume");
+            unsafe {
+                kani::assert(SEEN_IN[k] == Some(args[k]), "the value passed when resuming is the value the body receives for that resume");
+                if k >= RETURNS_AT || k >= N8 - 1 {
+                    kani::assert(r == CoroutineState::Complete(RET8), "the body's return value is reported as completion");
+                    finished = true;
+                } else {
+                    kani::assert(r == CoroutineState::Suspend(YIELDS[k], 0), "each value the coroutine yields is the value reported by that resume, in order");
+                }
+            }
+        }
+        k += 1;
+    }
+    let before = corosensei::verif_resume_count();
+    let again = co.resume_with(kani::any()).expect("resume of a finished coroutine");
+    unsafe {
+        kani::assert(again == CoroutineState::Complete(RET8), "completion is reported with the same value afterwards");
+    }
+    kani::assert(corosensei::verif_resume_count() == before, "the return value is produced once: a finished coroutine is not entered again");
+    kani::cover!(unsafe { RETURNS_AT } == 0, "returns in the first step");
+    kani::cover!(unsafe { RETURNS_AT } == 2, "two yields, then return");
+    core::mem::forget(co);
 });
